@@ -3,11 +3,14 @@ package checks
 import (
 	"fmt"
 	"math"
+	"sync"
 	"testing"
 	"testing/synctest"
 	"time"
 
+	"verifharness/eng"
 	"verifharness/mon"
+	"verifharness/sim"
 
 	"github.com/lightninglabs/lightning-node-connect/gbn"
 )
@@ -16,7 +19,7 @@ func TestC20(t *testing.T) {
 	mon.Main(t, mon.Check{
 		ID:    "C20",
 		Level: "exploration",
-		Rule:  "a real gbn.TimeoutManager is driven directly, inside a virtual-time bubble, with PRNG histories of 50-2000 Sent/Received events over SYN, SYNACK, DATA(seq), ACK(seq), NACK, FIN with arbitrary sequence numbers (ACKs for never-sent, resent and reused numbers included) and inter-event gaps from 0 to 1 h; multipliers 1..20, update frequencies 1..200, boost 1%..300%, static and adaptive mode, handshake timeouts 0.2-5 s. After every event GetResendTimeout/GetHandshakeTimeout are compared with a shadow derived from the statement: adaptive value >= 1 s; it is recomputed only at Received(ACK k) whose latest Sent(DATA k) was not a resend and was not consumed yet (and the update frequency permits), or at Received(SYN/SYNACK) with an unresent pending SYN, and then equals max(1s, multiplier*RTT); it increases only at Sent(DATA, resent) by exactly boost%*base and at most once per base interval; static mode: both timeouts constant. Non-trivial = history with at least one fresh sample and one boost; distinct = hash of the event-kind sequence.",
+		Rule:  "a real gbn.TimeoutManager is driven directly, inside a virtual-time bubble, with PRNG histories of 50-2000 Sent/Received events over SYN, SYNACK, DATA(seq), ACK(seq), NACK, FIN with arbitrary sequence numbers (ACKs for never-sent, resent and reused numbers included) and inter-event gaps from 0 to 1 h; multipliers 1..20, update frequencies 1..200, boost 1%..300%, static and adaptive mode, handshake timeouts 0.2-5 s. After every event GetResendTimeout/GetHandshakeTimeout are compared with a shadow derived from the statement: adaptive value >= 1 s; it is recomputed only at Received(ACK k) whose latest Sent(DATA k) was not a resend and was not consumed yet (and the update frequency permits), or at Received(SYN/SYNACK) with an unresent pending SYN, and then equals max(1s, multiplier*RTT); it increases only at Sent(DATA, resent) by exactly boost%*base and at most once per base interval; static mode: both timeouts constant. One case in ten instead samples the timeouts of live connections of the random fault engine at every packet they transmit (floor in adaptive mode, constancy in static mode). Non-trivial = history with at least one fresh sample and one boost; distinct = hash of the event-kind sequence.",
 		Assumptions: []string{
 			"the shadow compares durations with a relative tolerance of 1e-5 (the implementation multiplies in float32)",
 		},
@@ -31,7 +34,84 @@ func TestC20(t *testing.T) {
 	})
 }
 
+// runC20Live samples the timeouts of live connections of the random fault
+// engine at every packet they put on the wire.
+func runC20Live(c *mon.Case) {
+	sc := eng.RandScen(c.Rng, c.Tier, c.Idx)
+	if len(sc.SizesA) > 200 {
+		sc.SizesA = sc.SizesA[:200]
+	}
+	if len(sc.SizesB) > 200 {
+		sc.SizesB = sc.SizesB[:200]
+	}
+	var mu sync.Mutex
+	var samples int64
+	var minRT, maxRT time.Duration
+	var viol string
+	hs := sc.Conf.HSTimeout
+	if hs == 0 {
+		hs = time.Second
+	}
+	mk := func(name string, conn func() *gbn.GoBackNConn) func(int, sim.Pkt) {
+		return func(idx int, p sim.Pkt) {
+			g := conn()
+			if g == nil {
+				return
+			}
+			st := g.VerifState()
+			mu.Lock()
+			defer mu.Unlock()
+			samples++
+			if minRT == 0 || st.ResendTimeout < minRT {
+				minRT = st.ResendTimeout
+			}
+			if st.ResendTimeout > maxRT {
+				maxRT = st.ResendTimeout
+			}
+			switch {
+			case viol != "":
+			case sc.Conf.Static && (st.ResendTimeout != sc.Conf.Resend || st.HandshakeTimeout != hs):
+				viol = fmt.Sprintf("%s: statically configured timeouts changed on a live connection: resend %v (configured %v), handshake %v (configured %v)", name, st.ResendTimeout, sc.Conf.Resend, st.HandshakeTimeout, hs)
+			case !sc.Conf.Static && st.ResendTimeout < time.Second:
+				viol = fmt.Sprintf("%s: adaptive resend timeout %v below the 1 s floor on a live connection", name, st.ResendTimeout)
+			}
+		}
+	}
+	var pair *eng.Pair
+	r := eng.RunScen(c.T, sc, eng.Hooks{
+		OnLeak: leakHookInconc(c, sc),
+		BeforeConnect: func(p *eng.Pair) {
+			pair = p
+			p.C2S.OnSend = mk("client", p.Client)
+			p.S2C.OnSend = mk("server", p.Server)
+		},
+	})
+	_ = pair
+	if r.ConnErrC != nil || r.ConnErrS != nil {
+		c.Shard.Inconc("handshake failed")
+		return
+	}
+	if viol != "" {
+		key := "live-below-floor"
+		if sc.Conf.Static {
+			key = "live-static-changed"
+		}
+		c.Shard.Violate(key, viol+" ["+sc.Conf.String()+"]", scenReplay(sc, r))
+	}
+	c.Shard.Count("live_samples", samples)
+	c.Shard.Max("max_live_resend_timeout_ms", maxRT.Milliseconds())
+	if samples > 0 {
+		c.Shard.Eval(fmt.Sprintf("L|%v|%v|%v", sc.Conf.Static, minRT, maxRT))
+	} else {
+		c.Shard.Eval("")
+	}
+}
+
 func runC20(c *mon.Case) {
+	if c.Idx%10 == 9 {
+		runC20Live(c)
+		return
+	}
 	rng := c.Rng
 	static := c.Idx%5 == 4
 	mult := 1 + rng.Intn(20)
